@@ -9,7 +9,7 @@
    Proofs/WritersDict.v: wf_db (keys, field names, roles unique up to case; every role has a person -- what the API
    builds), map_ids.  Proofs/WritersTree.v: parts_ok p := reparse_person p = Ok p, yaml_ok, xml_ok. *)
 From Pybtex Require Import Base.Prelude Base.PyChar Base.PyStr Model.BibtexStr Model.Names Model.Scanner Model.BibParser Model.Writers
-  Proofs.Writers Proofs.WritersDict Proofs.WritersTree Proofs.WritersQuote Proofs.WritersPerson Proofs.WritersChain.
+  Proofs.Writers Proofs.WritersDict Proofs.WritersTree Proofs.WritersQuote Proofs.WritersPerson Proofs.WritersChain Proofs.WritersField.
 
 (* ---- identifier lower-casing changes nothing but the letter case of keys, entry types, field names, roles *)
 Theorem lower_only_case : forall d, wf_db d -> lower_db d = Ok (map_ids lower d).
@@ -146,3 +146,49 @@ Theorem quote_read_roundtrip : forall v, balanced v ->
       exists s', parse_value_part m s = Ret v s' /\ sc_rest (p_sc s') = tail /\ frame s' = frame s.
 Proof. exact quote_read_pf. Qed.
 Print Assumptions quote_read_roundtrip.
+
+(* ---- the tree round trips with the serialisation library in between.  [ydump]/[yload] stand for PyYAML's dump
+   (with the writer's options) and load (with the reader's loader), [xdump]/[xload] for XMLGenerator and ElementTree;
+   nothing is assumed of them except, as an explicit hypothesis, that the one tree the writer builds for this database
+   comes back unchanged.  That hypothesis is what the correspondence run samples on every case (function 6 / 8 compare
+   the tree loaded from the real to_string output with to_tree_yaml / to_tree_xml), including scalar shapes a library
+   may re-type ('007', 'true', '1e3', '~', ...). *)
+Theorem yaml_roundtrip : forall (text : Type) (ydump : tree -> text) (yload : text -> res tree) d,
+  wf_db d -> yaml_ok d -> yload (ydump (to_tree_yaml d)) = Ok (to_tree_yaml d) ->
+  read_yaml text yload (write_yaml text ydump d) = Ok (norm_preamble d).
+Proof. exact yaml_roundtrip_pf. Qed.
+Print Assumptions yaml_roundtrip.
+
+Theorem xml_roundtrip : forall (text : Type) (xdump : xml -> text) (xload : text -> res xml) d,
+  wf_db d -> xml_ok d -> xload (xdump (to_tree_xml d)) = Ok (to_tree_xml d) ->
+  read_xml text xload (write_xml text xdump d) = Ok (drop_preamble d).
+Proof. exact xml_roundtrip_pf. Qed.
+Print Assumptions xml_roundtrip.
+
+(* the hypothesis is not decoration: a library that re-types a scalar -- the tree of the database with value v' comes
+   back for the database with value v -- makes the reader return that other database; the glue cannot repair it *)
+Theorem yaml_scalar_retyped : forall (text : Type) (ydump : tree -> text) (yload : text -> res tree) name v v',
+  yaml_ok (field_db name v') ->
+  yload (ydump (to_tree_yaml (field_db name v))) = Ok (to_tree_yaml (field_db name v')) -> v <> v' ->
+  read_yaml text yload (write_yaml text ydump (field_db name v)) = Ok (field_db name v') /\ field_db name v' <> field_db name v.
+Proof. exact yaml_scalar_retyped_pf. Qed.
+Print Assumptions yaml_scalar_retyped.
+
+(* ---- a field as the BibTeX writer writes it is read back by the reader's parse_field: for an identifier the NAME
+   pattern matches, a brace-balanced value left alone by the LaTeX encoder (enc v = v: no # % & _ ~ with latexcodec),
+   the text  newline, 4 spaces, name, " = ", quoted value  (what follows the separating comma), followed by any
+   whitespace and anything that is neither whitespace nor '#', sets current_field_name = name and
+   current_value = [v], leaves the scanner at that following character and touches nothing else; no error in any mode *)
+Theorem field_roundtrip : forall enc m name v txt ws c t s,
+  is_ident name -> balanced v -> enc v = v -> write_field enc name v = Ok txt ->
+  forallb is_space ws = true -> is_space c = false -> c <> c_hash ->
+  sc_rest (p_sc s) = tl txt ++ ws ++ c :: t ->
+  exists s', parse_field m s = Ret tt s' /\ sc_rest (p_sc s') = c :: t /\
+             p_fname s' = Some name /\ p_value s' = [v] /\
+             p_fields s' = p_fields s /\ p_errs s' = p_errs s /\ p_macros s' = p_macros s /\ p_key s' = p_key s /\ p_cstart s' = p_cstart s.
+Proof. exact field_roundtrip_pf. Qed.
+Print Assumptions field_roundtrip.
+
+Example ex_field : is_ident (s2l "Title") /\ balanced (s2l "A {B} ""c""") /\ latex_enc (s2l "A {B} ""c""") = s2l "A {B} ""c""" /\
+  exists txt, write_field latex_enc (s2l "Title") (s2l "A {B} ""c""") = Ok txt /\ hd 0%N txt = c_comma.
+Proof. repeat split; try (vm_compute; reflexivity). eexists; split; vm_compute; reflexivity. Qed.
